@@ -1,40 +1,25 @@
 import TxdbusModel.Route.Spec
 import TxdbusModel.Proofs.Route.Text
 /-
-C12 - the text written by `DBusClientConnection.addMatch`, read with the specification's grammar
-(`Spec.ruleTextMeaning`), means exactly the constraints of the rule - for values that need no
-escaping (no apostrophe, no backslash); commas and equals signs inside values are fine.
+C12 - the text written by `DBusClientConnection.addMatch` (apostrophes escaped as '\''), read with the
+specification's grammar (`Spec.ruleTextMeaning`), means exactly the constraints of the rule - for every
+rule; and `Bus.dbus_AddMatch`'s scanner reads it the same way.
 -/
 namespace Txdbus.Route
 
 open Spec
 
-/-- (key, value) pairs in the order the client writes them. -/
-def optPair (k : Str) : Option Str → List (Str × Str)
-  | none => []
-  | some v => [(k, v)]
-
-def renderPairs (a : RuleArgs) : List (Str × Str) :=
-  optPair "type".toList a.mtype ++ optPair "sender".toList a.sender ++ optPair "interface".toList a.iface
-  ++ optPair "member".toList a.member ++ optPair "path".toList a.path
-  ++ optPair "path_namespace".toList a.pathNs ++ optPair "destination".toList a.dest
-  ++ (a.args.getD []).map (fun iv => (argKey iv.1, iv.2))
-  ++ (a.argPaths.getD []).map (fun iv => (argPathKey iv.1, iv.2))
-  ++ optPair "arg0namespace".toList a.arg0ns
-
 theorem optItem_eq (k : Str) (o : Option Str) :
-    optItem k o = (optPair k o).map (fun p => renderItem p.1 p.2) := by
+    optItem true k o = (optPair k o).map (fun p => renderItem p.1 p.2) := by
   cases o <;> rfl
 
 theorem renderItems_eq (a : RuleArgs) : renderItems a = (renderPairs a).map (fun p => renderItem p.1 p.2) := by
-  unfold renderItems renderPairs
+  unfold renderItems renderItemsWith renderPairs
   simp only [optItem_eq, List.map_append, List.map_map]
   rfl
 
 /-- a key the scanner accepts: no `=`, `,`, `'` -/
 def keyOk (k : Str) : Prop := '=' ∉ k ∧ ',' ∉ k ∧ '\'' ∉ k
-/-- a value that needs no escaping -/
-def valOk (v : Str) : Prop := '\'' ∉ v ∧ '\\' ∉ v
 
 theorem scanKey_item (k rest : Str) (hk : keyOk k) : scanKey (k ++ '=' :: rest) = some (k, rest) := by
   induction k with
@@ -46,38 +31,45 @@ theorem scanKey_item (k rest : Str) (hk : keyOk k) : scanKey (k ++ '=' :: rest) 
     have ht : keyOk t := ⟨fun e => hk.1 (by simp [e]), fun e => hk.2.1 (by simp [e]), fun e => hk.2.2 (by simp [e])⟩
     simp [scanKey, h1, h2, h3, ih ht]
 
-theorem scanValue_quoted (v tail : Str) (hv : '\'' ∉ v) :
-    scanValue .quoted (v ++ '\'' :: tail) = (scanValue .plain tail).map (fun vr => (v ++ vr.1, vr.2)) := by
+/-- Inside quotes the escaped value reads back as the value, whatever it contains. -/
+theorem scanValue_quoted (v tail : Str) :
+    scanValue .quoted (escapeQuotes v ++ '\'' :: tail) = (scanValue .plain tail).map (fun vr => (v ++ vr.1, vr.2)) := by
   induction v with
   | nil =>
-    simp only [List.nil_append, scanValue, if_true]
+    simp only [escapeQuotes, List.nil_append, scanValue, if_true]
     cases scanValue .plain tail <;> rfl
   | cons c t ih =>
-    have h1 : c ≠ '\'' := fun e => hv (by simp [e])
-    have ht : '\'' ∉ t := fun e => hv (by simp [e])
-    simp only [List.cons_append, scanValue, h1, if_false, ih ht]
-    cases scanValue .plain tail <;> rfl
+    by_cases hc : c = '\''
+    · subst hc
+      have hbs : ('\\' : Char) ≠ '\'' := by decide
+      have hbc : ('\\' : Char) ≠ ',' := by decide
+      simp only [escapeQuotes, if_true, List.cons_append, scanValue, hbs, hbc, if_false, ih]
+      cases scanValue .plain tail <;> rfl
+    · simp only [escapeQuotes, hc, if_false, List.cons_append, scanValue, ih]
+      cases scanValue .plain tail <;> rfl
+
+theorem renderItem_def (k v : Str) : renderItem k v = k ++ ('=' :: '\'' :: (escapeQuotes v ++ ['\''])) := rfl
 
 /-- the value part of an item, followed by the end of the text -/
-theorem scanValue_last (v : Str) (hv : '\'' ∉ v) :
-    scanValue .plain ('\'' :: (v ++ ['\''])) = some (v, none) := by
+theorem scanValue_last (v : Str) :
+    scanValue .plain ('\'' :: (escapeQuotes v ++ ['\''])) = some (v, none) := by
   simp only [scanValue, if_true]
-  rw [scanValue_quoted v [] hv]
+  rw [scanValue_quoted v []]
   simp [scanValue]
 
 /-- the value part of an item, followed by a comma and more text -/
-theorem scanValue_more (v more : Str) (hv : '\'' ∉ v) :
-    scanValue .plain ('\'' :: (v ++ '\'' :: ',' :: more)) = some (v, some more) := by
+theorem scanValue_more (v more : Str) :
+    scanValue .plain ('\'' :: (escapeQuotes v ++ '\'' :: ',' :: more)) = some (v, some more) := by
   simp only [scanValue, if_true]
-  rw [scanValue_quoted v (',' :: more) hv]
+  rw [scanValue_quoted v (',' :: more)]
   simp [scanValue]
 
 theorem renderItem_append (k v rest : Str) :
-    renderItem k v ++ rest = k ++ '=' :: '\'' :: (v ++ '\'' :: rest) := by
-  simp [renderItem]
+    renderItem k v ++ rest = k ++ '=' :: '\'' :: (escapeQuotes v ++ '\'' :: rest) := by
+  simp [renderItem_def]
 
 theorem parseItemsText_join (ps : List (Str × Str)) (hne : ps ≠ [])
-    (hk : ∀ p ∈ ps, keyOk p.1) (hv : ∀ p ∈ ps, '\'' ∉ p.2) :
+    (hk : ∀ p ∈ ps, keyOk p.1) :
     ∀ fuel, ps.length ≤ fuel →
       parseItemsText fuel (joinWith ',' (ps.map (fun p => renderItem p.1 p.2))) = some ps := by
   induction ps with
@@ -90,41 +82,137 @@ theorem parseItemsText_join (ps : List (Str × Str)) (hne : ps ≠ [])
       cases t with
       | nil =>
         simp only [List.map_cons, List.map_nil, joinWith, parseItemsText]
-        have : renderItem p.1 p.2 = p.1 ++ '=' :: ('\'' :: (p.2 ++ ['\''])) := rfl
-        rw [this, scanKey_item _ _ (hk p (by simp))]
+        rw [renderItem_def, scanKey_item _ _ (hk p (by simp))]
         simp only
-        rw [scanValue_last _ (hv p (by simp))]
+        rw [scanValue_last]
       | cons q u =>
-        have ih' := ih (by simp) (fun x hx => hk x (by simp [hx])) (fun x hx => hv x (by simp [hx])) f
-          (by simp at hf ⊢; omega)
+        have ih' := ih (by simp) (fun x hx => hk x (by simp [hx])) f (by simp at hf ⊢; omega)
         simp only [List.map_cons, joinWith, parseItemsText]
         simp only [List.map_cons] at ih'
         rw [renderItem_append, scanKey_item _ _ (hk p (by simp))]
         simp only
-        rw [scanValue_more _ _ (hv p (by simp))]
+        rw [scanValue_more]
         simp only
         rw [ih']
         rfl
 
 theorem renderItem_length (k v : Str) : 1 ≤ (renderItem k v).length := by
-  simp [renderItem]; omega
+  simp [renderItem_def]; omega
 
 theorem joinWith_length (c : Char) (xs : List Str) (h : ∀ x ∈ xs, 1 ≤ x.length) :
-    xs.length ≤ (joinWith c xs).length + (if xs = [] then 0 else 0) ∧ (xs ≠ [] → xs.length ≤ (joinWith c xs).length) := by
+    xs ≠ [] → xs.length ≤ (joinWith c xs).length := by
   induction xs with
-  | nil => simp [joinWith]
+  | nil => intro h'; exact absurd rfl h'
   | cons x t ih =>
+    intro _
     cases t with
     | nil =>
       have := h x (by simp)
       simp [joinWith]; omega
     | cons y u =>
       have hx := h x (by simp)
-      have ih' := (ih (fun z hz => h z (by simp [hz]))).2 (by simp)
+      have ih' := ih (fun z hz => h z (by simp [hz])) (by simp)
       simp only [joinWith, List.length_append, List.length_cons] at ih' ⊢
-      constructor
-      · simp; omega
-      · intro _; omega
+      omega
+
+/-! ### the bus's scanner reads what the specification's scanner reads -/
+
+def BQ.toQ : BQ → Q
+  | .plain => .plain | .quoted => .quoted | .bs => .bs
+
+def restOf (vr : Str × Option Str) : Str × Str := (vr.1, vr.2.getD [])
+
+theorem busScanValue_eq (q : BQ) (s : Str) : busScanValue q s = (scanValue q.toQ s).map restOf := by
+  induction s generalizing q with
+  | nil => cases q <;> rfl
+  | cons c t ih =>
+    cases q with
+    | quoted =>
+      simp only [busScanValue, scanValue, BQ.toQ]
+      split
+      · exact ih .plain
+      · rw [ih .quoted]; simp only [BQ.toQ]; cases scanValue .quoted t <;> rfl
+    | plain =>
+      simp only [busScanValue, scanValue, BQ.toQ]
+      split
+      · exact ih .quoted
+      · split
+        · rfl
+        · split
+          · exact ih .bs
+          · rw [ih .plain]; simp only [BQ.toQ]; cases scanValue .plain t <;> rfl
+    | bs =>
+      simp only [busScanValue, scanValue, BQ.toQ]
+      split
+      · rw [ih .plain]; simp only [BQ.toQ]; cases scanValue .plain t <;> rfl
+      · split
+        · rfl
+        · split
+          · rw [ih .bs]; simp only [BQ.toQ]; cases scanValue .bs t <;> rfl
+          · rw [ih .plain]; simp only [BQ.toQ]; cases scanValue .plain t <;> rfl
+
+theorem busScanKey_of_spec (s k rest : Str) (h : scanKey s = some (k, rest)) : busScanKey s = some (k, rest) := by
+  induction s generalizing k rest with
+  | nil => simp [scanKey] at h
+  | cons c t ih =>
+    unfold scanKey at h
+    unfold busScanKey
+    by_cases hc : c = '='
+    · simp only [hc, if_true] at h ⊢; exact h
+    · simp only [hc, if_false] at h ⊢
+      split at h
+      · cases h
+      · cases hk : scanKey t with
+        | none => rw [hk] at h; cases h
+        | some kr =>
+          rw [hk] at h
+          obtain ⟨k', r'⟩ := kr
+          simp only [Option.map_some, Option.some.injEq, Prod.mk.injEq] at h
+          rw [ih k' r' hk]
+          simp [h]
+
+/-- Whenever the specification reads a text as a list of pairs, `_parseMatchRule` returns that list. -/
+theorem busItems_of_spec (fuel : Nat) : ∀ (text : Str) (ps : List (Str × Str)),
+    parseItemsText fuel text = some ps → busItems fuel text = .ok ps := by
+  induction fuel with
+  | zero => intro text ps h; simp [parseItemsText] at h
+  | succ f ih =>
+    intro text ps h
+    unfold parseItemsText at h
+    cases hk : scanKey text with
+    | none => rw [hk] at h; cases h
+    | some kr =>
+      obtain ⟨k, rest⟩ := kr
+      rw [hk] at h
+      simp only at h
+      have hbk := busScanKey_of_spec text k rest hk
+      cases text with
+      | nil => simp [scanKey] at hk
+      | cons c t =>
+        unfold busItems
+        rw [hbk]
+        simp only
+        rw [busScanValue_eq]
+        simp only [BQ.toQ]
+        cases hv : scanValue .plain rest with
+        | none => rw [hv] at h; cases h
+        | some vr =>
+          obtain ⟨v, r⟩ := vr
+          rw [hv] at h
+          cases r with
+          | none =>
+            simp only [Option.some.injEq] at h
+            subst h
+            simp [restOf, busItems]
+          | some more =>
+            simp only at h
+            cases hm : parseItemsText f more with
+            | none => rw [hm] at h; cases h
+            | some l =>
+              rw [hm] at h
+              simp only [Option.map_some, Option.some.injEq] at h
+              subst h
+              simp [restOf, ih more l hm]
 
 /-! ### from pairs to constraints -/
 
@@ -242,20 +330,7 @@ theorem pairs_mean_constraints (a : RuleArgs) : (renderPairs a).mapM F = some (c
       (fun iv _ => constraintOfItem_argPath iv.1 iv.2)
   · exact seg_closed _ _ _ (fun v => rfl)
 
-/-! ### the theorem -/
-
-/-- No value of the rule contains an apostrophe (values with a backslash are fine inside quotes). -/
-structure RuleArgs.QuoteFree (a : RuleArgs) : Prop where
-  mtype : ∀ v, a.mtype = some v → '\'' ∉ v
-  sender : ∀ v, a.sender = some v → '\'' ∉ v
-  iface : ∀ v, a.iface = some v → '\'' ∉ v
-  member : ∀ v, a.member = some v → '\'' ∉ v
-  path : ∀ v, a.path = some v → '\'' ∉ v
-  pathNs : ∀ v, a.pathNs = some v → '\'' ∉ v
-  dest : ∀ v, a.dest = some v → '\'' ∉ v
-  arg0ns : ∀ v, a.arg0ns = some v → '\'' ∉ v
-  args : ∀ iv ∈ a.args.getD [], '\'' ∉ iv.2
-  argPaths : ∀ iv ∈ a.argPaths.getD [], '\'' ∉ iv.2
+/-! ### the theorems -/
 
 theorem closed_keyOk :
     keyOk "type".toList ∧ keyOk "sender".toList ∧ keyOk "interface".toList ∧ keyOk "member".toList
@@ -308,63 +383,84 @@ theorem argPathKey_keyOk (i : Nat) : keyOk (argPathKey i) := by
     · exact natDigits_noQuote i h
     · revert h; simp
 
-theorem optPair_ok (k : Str) (o : Option Str) (hk : keyOk k) (ho : ∀ v, o = some v → '\'' ∉ v) :
-    ∀ p ∈ optPair k o, keyOk p.1 ∧ '\'' ∉ p.2 := by
+theorem optPair_ok (k : Str) (o : Option Str) (hk : keyOk k) : ∀ p ∈ optPair k o, keyOk p.1 := by
   intro p hp
   cases o with
   | none => simp [optPair] at hp
   | some v =>
     simp only [optPair, List.mem_singleton] at hp
     subst hp
-    exact ⟨hk, ho v rfl⟩
+    exact hk
 
-theorem renderPairs_ok (a : RuleArgs) (hq : a.QuoteFree) : ∀ p ∈ renderPairs a, keyOk p.1 ∧ '\'' ∉ p.2 := by
+theorem renderPairs_ok (a : RuleArgs) : ∀ p ∈ renderPairs a, keyOk p.1 := by
   obtain ⟨k1, k2, k3, k4, k5, k6, k7, k8⟩ := closed_keyOk
   intro p hp
   unfold renderPairs at hp
   simp only [List.mem_append, List.mem_map] at hp
   rcases hp with (((((((((h | h) | h) | h) | h) | h) | h) | h) | h) | h)
-  · exact optPair_ok _ _ k1 hq.mtype p h
-  · exact optPair_ok _ _ k2 hq.sender p h
-  · exact optPair_ok _ _ k3 hq.iface p h
-  · exact optPair_ok _ _ k4 hq.member p h
-  · exact optPair_ok _ _ k5 hq.path p h
-  · exact optPair_ok _ _ k6 hq.pathNs p h
-  · exact optPair_ok _ _ k7 hq.dest p h
-  · obtain ⟨iv, hiv, rfl⟩ := h
-    exact ⟨argKey_keyOk iv.1, hq.args iv hiv⟩
-  · obtain ⟨iv, hiv, rfl⟩ := h
-    exact ⟨argPathKey_keyOk iv.1, hq.argPaths iv hiv⟩
-  · exact optPair_ok _ _ k8 hq.arg0ns p h
+  · exact optPair_ok _ _ k1 p h
+  · exact optPair_ok _ _ k2 p h
+  · exact optPair_ok _ _ k3 p h
+  · exact optPair_ok _ _ k4 p h
+  · exact optPair_ok _ _ k5 p h
+  · exact optPair_ok _ _ k6 p h
+  · exact optPair_ok _ _ k7 p h
+  · obtain ⟨iv, _, rfl⟩ := h
+    exact argKey_keyOk iv.1
+  · obtain ⟨iv, _, rfl⟩ := h
+    exact argPathKey_keyOk iv.1
+  · exact optPair_ok _ _ k8 p h
 
-/-- The text the client sends, read with the specification's grammar, means the rule's constraints. -/
-theorem text_means_constraints (a : RuleArgs) (hq : a.QuoteFree) :
-    ruleTextMeaning (renderRule a) = some (constraintsOf a) := by
-  unfold ruleTextMeaning parseRuleText renderRule
-  rw [renderItems_eq]
-  have hok := renderPairs_ok a hq
+/-- The specification's reading of the client's text: the (key, value) pairs of the rule. -/
+theorem parseRuleText_render (a : RuleArgs) : parseRuleText (renderRule a) = some (renderPairs a) := by
+  have hrr : renderRule a = joinWith ',' ((renderPairs a).map (fun p => renderItem p.1 p.2)) := by
+    show joinWith ',' (renderItems a) = _
+    rw [renderItems_eq]
+  unfold parseRuleText
+  rw [hrr]
+  have hok := renderPairs_ok a
   cases hps : renderPairs a with
-  | nil =>
-    have hc := pairs_mean_constraints a
-    rw [hps] at hc
-    simp only [List.map_nil, joinWith, List.isEmpty_nil, if_true, Option.bind_some]
-    exact hc
+  | nil => simp [joinWith]
   | cons p t =>
     have hne : (p :: t) ≠ [] := by simp
     have hlen : (p :: t).length ≤ (joinWith ',' ((p :: t).map (fun p => renderItem p.1 p.2))).length := by
-      have := (joinWith_length ',' ((p :: t).map (fun p => renderItem p.1 p.2))
-        (by intro x hx; obtain ⟨q, _, rfl⟩ := List.mem_map.mp hx; exact renderItem_length _ _)).2 (by simp)
+      have := joinWith_length ',' ((p :: t).map (fun p => renderItem p.1 p.2))
+        (by intro x hx; obtain ⟨q, _, rfl⟩ := List.mem_map.mp hx; exact renderItem_length _ _) (by simp)
       simpa using this
     have hnonempty : (joinWith ',' ((p :: t).map (fun p => renderItem p.1 p.2))).isEmpty = false := by
       cases hj : joinWith ',' ((p :: t).map (fun p => renderItem p.1 p.2)) with
       | nil => rw [hj] at hlen; simp at hlen
       | cons _ _ => rfl
     rw [hps] at hok
-    have hparse := parseItemsText_join (p :: t) hne (fun x hx => (hok x hx).1) (fun x hx => (hok x hx).2)
+    have hparse := parseItemsText_join (p :: t) hne hok
       ((joinWith ',' ((p :: t).map (fun p => renderItem p.1 p.2))).length + 1) (by omega)
-    simp only [hnonempty, Bool.false_eq_true, if_false, hparse, Option.bind_some]
-    have hc := pairs_mean_constraints a
-    rw [hps] at hc
-    exact hc
+    simp only [hnonempty, Bool.false_eq_true, if_false, hparse]
+
+/-- The text the client sends, read with the specification's grammar, means the rule's constraints. -/
+theorem text_means_constraints (a : RuleArgs) : ruleTextMeaning (renderRule a) = some (constraintsOf a) := by
+  unfold ruleTextMeaning
+  rw [parseRuleText_render, Option.bind_some]
+  exact pairs_mean_constraints a
+
+/-- `_parseMatchRule` on the client's text returns the pairs of the rule. -/
+theorem parseMatchRule_render (a : RuleArgs) : parseMatchRule (renderRule a) = .ok (renderPairs a) := by
+  have h := parseRuleText_render a
+  unfold parseRuleText at h
+  unfold parseMatchRule
+  cases ht : renderRule a with
+  | nil =>
+    rw [ht] at h
+    simp at h
+    simp [busItems, ← h]
+  | cons c t =>
+    rw [ht] at h
+    simp only [List.isEmpty_cons, Bool.false_eq_true, if_false] at h
+    exact busItems_of_spec _ _ _ h
+
+/-- `Bus.dbus_AddMatch` recovers from the client's text the constraints the client was given - for every rule. -/
+theorem parse_render (a : RuleArgs) : parseRule curBusKeys (renderRule a) = .ok a.normalize := by
+  unfold parseRule
+  rw [parseMatchRule_render]
+  exact parseItems_renderPairs a
 
 end Txdbus.Route
